@@ -226,7 +226,53 @@ fn case_calculators(t: &mut Tape, info: &mut CaseInfo) -> Result<(), String> {
     same("attributes().<setters>.build() vs attributes().difficulty(&D).build()", &b3.build(), &built)?;
     same("attributes().<setters>.hit_windows() vs attributes().difficulty(&D).hit_windows()", &b3.hit_windows(), &hw)?;
     info.comparisons += 2;
+    // the builder configured *before* it is given the map (mods / clock rate survive `map()`)
+    let mut b4 = BeatmapAttributesBuilder::new().mods(insp.mods.clone());
+    if let Some(r) = insp.clock_rate {
+        b4 = b4.clock_rate(r);
+    }
+    b4 = b4.map(&explicit);
+    if let Some(v) = insp.ar {
+        b4 = b4.ar(v.value, v.with_mods);
+    }
+    if let Some(v) = insp.od {
+        b4 = b4.od(v.value, v.with_mods);
+    }
+    if let Some(v) = insp.cs {
+        b4 = b4.cs(v.value, v.with_mods);
+    }
+    if let Some(v) = insp.hp {
+        b4 = b4.hp(v.value, v.with_mods);
+    }
+    same("new().mods().clock_rate().map(&m).<overrides>.build() vs attributes().difficulty(&D).build()", &b4.build(), &built)?;
+    info.comparisons += 1;
     let attrs = calc_for_mode(&c.d, &c.map, c.target)?;
+    // the gradual calculator stores the same windows (first value; converts go through the same builder)
+    let mut dg = c.dspec.clone();
+    dg.passed = None;
+    if let Ok(mut g) = rosu_pp::GradualDifficulty::new_with_mode(dg.build(c.target), &c.map, c.target) {
+        if let Some(first) = g.next() {
+            let bg = explicit.attributes().difficulty(&dg.build(c.target));
+            let (gb, gh) = (bg.build(), bg.hit_windows());
+            let chk = |name: &str, a: f64, b: f64| if a == b || (a.is_nan() && b.is_nan()) { Ok(()) } else { Err(format!("gradual {name}: calculator stores {a}, builder says {b}")) };
+            match &first {
+                DifficultyAttributes::Osu(a) => {
+                    chk("ar", a.ar, gb.ar)?;
+                    chk("great_hit_window", a.great_hit_window, gh.od_great)?;
+                    chk("ok_hit_window", a.ok_hit_window, gh.od_ok.unwrap_or(0.0))?;
+                    chk("meh_hit_window", a.meh_hit_window, gh.od_meh.unwrap_or(0.0))?;
+                    chk("hp", a.hp, gb.hp)?;
+                }
+                DifficultyAttributes::Taiko(a) => {
+                    chk("great_hit_window", a.great_hit_window, gh.od_great)?;
+                    chk("ok_hit_window", a.ok_hit_window, gh.od_ok.unwrap_or(0.0))?;
+                }
+                DifficultyAttributes::Catch(a) => chk("ar", a.ar, gb.ar)?,
+                DifficultyAttributes::Mania(_) => {}
+            }
+            info.comparisons += 1;
+        }
+    }
     let eq = |name: &str, a: f64, b: f64| if a == b || (a.is_nan() && b.is_nan()) { Ok(()) } else { Err(format!("{name}: calculator stores {a}, builder says {b}")) };
     match &attrs {
         DifficultyAttributes::Osu(a) => {
@@ -269,7 +315,7 @@ pub fn property() -> Property {
             },
             SubCheck {
                 name: "calculators-agree",
-                rule: "tiny G-MAP maps (<=8 objects, all modes + converts) x wide G-DIFF. Oracle: OsuDifficultyAttributes.{ar, od(), hp, great/ok/meh_hit_window}, TaikoDifficultyAttributes.{great,ok}_hit_window, CatchDifficultyAttributes.ar are exactly map.attributes().difficulty(&D).build()/hit_windows() of the (converted) map, which in turn equal the builder configured through its own mods/clock_rate/ar/od/cs/hp setters with the same values. Non-trivial: non-default settings, mode != mania.",
+                rule: "tiny G-MAP maps (<=8 objects, all modes + converts) x wide G-DIFF. Oracle: OsuDifficultyAttributes.{ar, od(), hp, great/ok/meh_hit_window}, TaikoDifficultyAttributes.{great,ok}_hit_window, CatchDifficultyAttributes.ar are exactly map.attributes().difficulty(&D).build()/hit_windows() of the (converted) map, which in turn equal the builder configured through its own mods/clock_rate/ar/od/cs/hp setters with the same values (also when mods and clock rate are set before `map()`); the first gradual value stores the same AR / hit windows. Non-trivial: non-default settings, mode != mania.",
                 quick: 8000,
                 thorough: 120_000,
                 tape_len: 700,
